@@ -168,7 +168,8 @@ pub fn unit_call(w: &mut W, call: Call, data: &[u8], place: Place) -> bool {
             };
             let ample = Call { cap: ample_cap(data).max(call.cap + 2), entry: ample_entry, ..call };
             let (a, b2) = w.obs(ample, &b_owned, place);
-            if let Some(f) = orc::c17(b2, &o, &a) {
+            let (_sres, sinfo) = spec::run(ample.entry, &b_owned, ample.cfg, ample.cap);
+            if let Some(f) = orc::c17_ref(b2, &o, &a, Some(sinfo.stored)) {
                 w.viol(f.rule, f.detail, call, place, data);
             }
             if o.res.st == St::Err(ErrK::TooManyHeaders) {
